@@ -231,7 +231,7 @@ def run(repo: Repo, rep: Report, tier: str) -> None:
         for c in consts:
             ot = c.args[1] if len(c.args) > 1 else kwarg(c, "output_type")
             rep.check(ot is not None and norm(ot).endswith(".output_type"), "C10-R4",
-                      f"{opt.short} replacement constant takes the folded node's output_type: {norm(c)}",
+                      f"{opt.short} replacement constant #{consts.index(c) + 1} takes the folded node's output_type",
                       f"second argument is {norm(ot)}", opt.loc(c))
         for var in _ladder_vars(opt, ir_names):
             for br in ladder(opt, var):
@@ -250,7 +250,7 @@ def run(repo: Repo, rep: Report, tier: str) -> None:
                             read_args.setdefault(a0, c)
                 for a0, c in sorted(read_args.items()):
                     rep.check(a0 in guard_args, "C10-R4",
-                              f"{opt.short} [{'/'.join(br.classes)}] guards {a0} against user-declared constants before folding",
+                              f"{opt.short} [{'/'.join(br.classes)}] guards {'<node>' + a0[len(var):]} against user-declared constants before folding",
                               "guarded" if a0 in guard_args else
                               f"constant value of {a0} is folded into the result without the user-declared test: a declared input is baked in",
                               opt.loc(c))
